@@ -82,7 +82,7 @@ func uvar(v uint64) []byte { return binary.AppendUvarint(nil, v) }
 
 // C06 — hostile or corrupted input yields an error, never a crash or bad column.
 func C06(c *vk.Ctx) {
-	c.Rule("corpus = one valid block per registry composition (rows built from the boundary alphabet; for LowCardinality compositions also the same block as a server may write it, with 16- and 64-bit keys) at revision 54460 and the C17 messages; mutations: (a) every byte offset x {8 bit flips, 00, FF}; (b) at every byte offset an 8-byte little-endian field overwritten with each of {0, 1, 127, 128, 255, 256, 65535, 65536, 2^31-1, 2^31, 2^32-1, 2^32, 2^40, 2^62, 2^63-256, 2^63-16, 2^63-8, 2^63-4, 2^63-3, 2^63-2, 2^63-1, 2^63, 2^63+1, 2^64-2, 2^64-1} (offsets, dictionary sizes, key counts, LowCardinality meta) and the byte replaced by the varint encoding of the same values (row / column counts, string lengths); (c) splices: prefix of one block + suffix of another block of the same column at every offset. Each mutant is decoded through the typed target and through Auto in a worker with a 3 GiB address-space limit and the block row cap lowered to 65536; oracle: returns (watchdog 30 s), no panic, process survives, and on success every column reports the block's row count and Row(i) works for all i. distinct_nontrivial = mutants evaluated (each is a distinct byte string by construction).")
+	c.Rule("corpus = one valid block per registry composition (rows built from the boundary alphabet; for LowCardinality compositions also the same block as a server may write it, with 16- and 64-bit keys) at revision 54460 and the C17 messages; mutations: (a) every byte offset x {8 bit flips, 00, FF}; (b) at every byte offset an 8-byte little-endian field overwritten with each of {0, 1, 127, 128, 255, 256, 65535, 65536, 2^31-1, 2^31, 2^32-1, 2^32, 2^40, 2^62, 2^63-256, 2^63-16, 2^63-8, 2^63-4, 2^63-3, 2^63-2, 2^63-1, 2^63, 2^63+1, 2^64-2, 2^64-1} (offsets, dictionary sizes, key counts, LowCardinality meta) and the byte replaced by the varint encoding of the same values (row / column counts, string lengths); (c) splices: prefix of one block + suffix of another block of the same column at every offset; (d) well-formed blocks of another shape than the one-column target (two columns with rows and as zero-row headers, in both orders; no columns at all, with and without a row count). Each mutant is decoded through the typed target and through Auto in a worker with a 3 GiB address-space limit and the block row cap lowered to 65536; oracle: returns (watchdog 30 s), no panic, process survives, and on success every column reports the block's row count and Row(i) works for all i. distinct_nontrivial = mutants evaluated (each is a distinct byte string by construction).")
 	c.Watchdog(30*time.Second, "C06/does-not-terminate")
 	rev := 54460
 	quick := c.Quick()
@@ -174,6 +174,31 @@ func C06(c *vk.Ctx) {
 						tag  string
 						b, o []byte
 					}{fmt.Sprintf("/keys%d", 8<<kw), w.B, nil})
+				}
+			}
+		}
+		// (d) well-formed blocks of another shape than the one-column target: more / fewer
+		// columns than targets, with rows and as zero-row header blocks; a block that claims
+		// rows without carrying columns
+		if !noRef(e.Label) {
+			if _, _, want, err := build(e, []int{0, 1 % na, 2 % na}); err == nil {
+				u8 := refcol.MustParse("UInt8")
+				shapes := []struct {
+					name string
+					rows int
+					cols []refcol.BlockCol
+				}{
+					{"two-columns", 3, []refcol.BlockCol{{Name: "col", Type: probe.T, Vals: want}, {Name: "x", Type: u8, Vals: []any{[]byte{1}, []byte{2}, []byte{3}}}}},
+					{"two-columns-header", 0, []refcol.BlockCol{{Name: "col", Type: probe.T}, {Name: "x", Type: u8}}},
+					{"extra-first-header", 0, []refcol.BlockCol{{Name: "x", Type: u8}, {Name: "col", Type: probe.T}}},
+					{"no-columns-three-rows", 3, nil},
+					{"no-columns-header", 0, nil},
+					{"one-column-header", 0, []refcol.BlockCol{{Name: "col", Type: probe.T}}},
+				}
+				for _, sh := range shapes {
+					var w refwire.W
+					refcol.EncodeBlockBody(&w, rev, refwire.BlockInfo{BucketNum: -1}, sh.rows, sh.cols)
+					eval(e, e.Label+"/shape/"+sh.name, w.B, "other block shapes")
 				}
 			}
 		}
